@@ -1429,3 +1429,52 @@ def rule_text_block_line_start(ctx):
         ctx.check(len(texts) >= 2 and nextline and looks_ahead, rule, "with_comments:comment-before-text-block", "with_comments does not turn the "
                   "same-line separation after a comment into a line break when the NEXT comment is a text block (as_text calls: %d, "
                   "NextLine: %s, look-ahead: %s)" % (len(texts), nextline, looks_ahead), facts.bodies()[fn]["loc"])
+
+
+def rule_block_construct_comments(ctx):
+    rule = "block-construct-comments"
+    facts = ctx.facts
+    ctx.rule(rule, "a block construct is printed through `block_like`, which fails unless the construct starts its line. The comment "
+                   "emitter therefore ends the line after a comment written in front of such a construct (with_leading_comments asks "
+                   "starts_own_line), and starts_own_line names EXACTLY the term formers whose printer arm calls block_like: a former "
+                   "missing from it makes `/- c -/ <construct>` unformattable (`no layout keeps its block constructs at the start of a "
+                   "line`), an extra one breaks lines that could stay joined")
+    fn = FORMATTER + "term_with_requirement"
+    h = ctx.need_hir(rule, fn)
+    if h is None:
+        return
+    top = None
+    for m in H.walk(h["body"]):
+        if H.kind(m) == "Match" and not m.get("src") and sum(1 for a in m["arms"] if A.pat_shape(a["pat"])[:1].isupper()) >= 20:
+            top = m
+    if top is None:
+        ctx.anchor_lost(rule, "no match over Term in term_with_requirement")
+        return
+    uses = set()
+    for a in top["arms"]:
+        if any(H.kind(c) in ("Call", "MethodCall") and (H.callee(c) or "").endswith("::block_like") for c in H.walk(a["body"])):
+            for v in H.pat_variants(a["pat"]):
+                if "::Term::" in v:
+                    uses.add(v.split("::")[-1])
+    fn2 = FORMATTER + "starts_own_line"
+    h2 = facts.hir(fn2)
+    if h2 is None:
+        ctx.violation(rule, "starts_own_line:missing", "the printer has no starts_own_line: a comment in front of a block construct on its "
+                      "line leaves no layout (`/- c -/ let x = 1 in x` cannot be formatted)", facts.bodies()[fn]["loc"])
+        return
+    named = set()
+    for m in H.walk(h2["body"]):
+        if H.kind(m) == "Match":
+            for a in m["arms"]:
+                body = H.peel(a["body"])
+                if (body.get("lit") or {}).get("bool") in (True, "true"):
+                    named |= {v.split("::")[-1] for v in H.pat_variants(a["pat"]) if "::Term::" in v}
+    ctx.check(bool(uses) and named == uses, rule, "starts_own_line:agrees-with-block_like", "starts_own_line names %s, the printer arms that "
+              "call block_like are %s" % (sorted(named), sorted(uses)), facts.bodies()[fn2]["loc"], detail={"formers": sorted(uses)})
+    h3 = ctx.need_hir(rule, FORMATTER + "with_leading_comments")
+    if h3 is not None:
+        asks = any(H.kind(c) in ("Call", "MethodCall") and (H.callee(c) or "").endswith("::starts_own_line") for c in H.walk(h3["body"]))
+        breaks = any(H.kind(c) in ("Call", "MethodCall") and (H.callee(c) or "").endswith("::hardline") for c in H.walk(h3["body"]))
+        ctx.check(asks and breaks, rule, "with_leading_comments:ends-the-line", "with_leading_comments does not end the line after a same-line "
+                  "comment in front of a construct that starts its own line (asks: %s, hardline: %s)" % (asks, breaks),
+                  facts.bodies()[FORMATTER + "with_leading_comments"]["loc"])
